@@ -285,6 +285,10 @@ TASKS += lemmas()
 import contracts.drv_psd as _DRVPSD
 TASKS += _DRVPSD.TASKS[:1]
 
+# process() and traditional_hvsr_processing_base(): the entry of the settings' key, called once with the caller's two arguments (any body, not a spelling)
+import contracts.dispatch as _DISPATCH
+TASKS += _DISPATCH.PROCESS_TASKS + _DISPATCH.TRADITIONAL_TASKS
+
 META = dict(
     level="other",
     explanation="proved: combine-horizontals formulas (5 + single azimuth) pointwise for all vectors, nextpow2, prepare_fft_settings (zero "
